@@ -13,6 +13,7 @@ package main
 
 import (
 	"encoding/hex"
+	"encoding/json"
 	"fmt"
 	"os"
 	"runtime"
@@ -48,7 +49,7 @@ func witnessOf(p *Program, recs []*Record, d *Divergence, at int) map[string]any
 		}
 		wr = append(wr, w)
 	}
-	return map[string]any{"schema": schemaFields, "program_yaml": p.YAML(), "records": wr, "diverges_at_record": at, "divergence": d.What, "kind": d.Kind}
+	return map[string]any{"schema": schemaFields, "program_yaml": p.YAML(), "program_ast": p, "records": wr, "diverges_at_record": at, "divergence": d.What, "kind": d.Kind}
 }
 
 // runProgram evaluates program number idx; returns false if it diverged.
@@ -114,6 +115,10 @@ func runProgram(c *vkit.Ctx, idx int, op Opaque, minimiseLeft *int, single bool)
 			}
 			continue
 		}
+		if d.Kind == "inconclusive" {
+			c.Event("programs_cut_short_by_open_points", 1)
+			return
+		}
 		c.Event("divergences", 1)
 		if *minimiseLeft <= 0 {
 			c.Event("divergences_not_minimised", 1)
@@ -143,7 +148,7 @@ func classify(mp *Program, mrecs []*Record, md *Divergence) string {
 	if md.Kind == "field" {
 		// a truncate step in the minimal program and the damage is in ANOTHER field, or only shows on a later record:
 		// the in-place write went through memory shared with another field / a configuration string
-		hasTruncate, isKey := false, false
+		hasTruncate, isKey, otherState := false, false, false
 		walk(mp.Steps, 1, func(s *Step, _ int) {
 			if s.Type == "truncate" {
 				hasTruncate = true
@@ -151,8 +156,11 @@ func classify(mp *Program, mrecs []*Record, md *Divergence) string {
 					isKey = true
 				}
 			}
+			if s.Type == "drop" && s.Percentage < 100 {
+				otherState = true // sampled drops are the only other state that persists across records
+			}
 		})
-		if hasTruncate && (!isKey || len(mrecs) > 1) {
+		if hasTruncate && (!isKey || len(mrecs) > 1 && !otherState) {
 			return "truncate:writes-through-shared-memory"
 		}
 	}
@@ -330,11 +338,60 @@ func childBatch(c *vkit.Ctx, op Opaque) {
 	c.Finish()
 }
 
+// replay re-runs the witness of a replay file (./check C15 quick --replay <file>) on the current tree.
+func replay(path string, op Opaque) {
+	b, err := os.ReadFile(path)
+	if err != nil {
+		fmt.Println("REPLAY-ERROR", err)
+		os.Exit(2)
+	}
+	var f struct {
+		Fingerprint string `json:"fingerprint"`
+		Witness     struct {
+			Schema  []string `json:"schema"`
+			AST     *Program `json:"program_ast"`
+			Records []struct {
+				FieldsHex map[string]string `json:"fields_hex"`
+				Unescaped bool              `json:"unescaped"`
+				RawLength int               `json:"rawLength"`
+			} `json:"records"`
+		} `json:"witness"`
+	}
+	if err := json.Unmarshal(b, &f); err != nil || f.Witness.AST == nil {
+		fmt.Println("REPLAY-ERROR: no program_ast in the witness (match-engine and unit-vector witnesses are replayed by running the check)", err)
+		os.Exit(2)
+	}
+	schema := f.Witness.Schema
+	var recs []*Record
+	for _, wr := range f.Witness.Records {
+		rec := &Record{Fields: make([]string, len(schema)), Unescaped: wr.Unescaped, RawLength: wr.RawLength}
+		for i, n := range schema {
+			if h, ok := wr.FieldsHex[n]; ok {
+				v, _ := hex.DecodeString(h)
+				rec.Fields[i] = string(v)
+			}
+		}
+		recs = append(recs, rec)
+	}
+	at, d := Replay(schema, f.Witness.AST, recs, op)
+	if d == nil {
+		fmt.Printf("NOT-REPRODUCED fingerprint=%s: the current tree agrees with the documented semantics on this witness\n", f.Fingerprint)
+		os.Exit(0)
+	}
+	fmt.Printf("REPRODUCED fingerprint=%s at record %d: %s\n", f.Fingerprint, at, d.What)
+	os.Exit(1)
+}
+
 func main() {
 	logger.SetLogLevel(logger.FatalLevel) // parseTime warns on every malformed stamp
 	transform.Register()
-	c := vkit.Start("C15", "exploration")
 	op := newOpaque()
+	for i, a := range os.Args {
+		if a == "--replay" && i+1 < len(os.Args) {
+			replay(os.Args[i+1], op)
+		}
+	}
+	c := vkit.Start("C15", "exploration")
 	if c.Child == "batch" {
 		childBatch(c, op)
 		return
@@ -457,13 +514,13 @@ func main() {
 	for _, op := range []string{"str", "str-eq", "str-not", "str-start", "str-end", "str-contain", "glob", "regex", "len-gt", "len-lt", "str-any"} {
 		c.Require("op:"+op, 20)
 	}
-	c.Require("sampled_prefixes", 99000)
 	c.Require("match_evaluations", 20000)
 	for _, op := range []string{"str", "str-eq", "str-not", "str-start", "str-end", "str-contain", "glob", "regex", "len-gt", "len-lt", "str-any"} {
 		c.Require("matchop:"+op, 500)
 	}
 	if c.NumViolations() == 0 {
-		// boundary floors only make sense when programs ran to the end
+		// these floors only make sense when streams and programs ran to the end
+		c.Require("sampled_prefixes", 99000)
 		for _, b := range []string{"truncate:cut-clean", "truncate:cut-midrune1", "truncate:cut-midrune2", "truncate:cut-after-rune",
 			"extractHead:edge", "extractTail:edge", "extractHead:beyond", "extractTail:beyond", "extractHead:in", "extractTail:in",
 			"drop:sampled-drop", "drop:sampled-keep"} {
